@@ -738,6 +738,73 @@ def e15(rep, src):
                 rep.violation("E15", key, "the %s of the product are (%s).chain(%s): `self`'s do not come first" % (what, first, second), "src/expr/split.rs:%d" % e.get("l", a["l"]))
 
 
+def e17(rep, src):
+    """SQL literals are the exact text of the value: never the human Display of a value wrapper that is not transparent."""
+    from .util_display import transparent_displays, wrapper_prints
+
+    rep.rule(
+        "E17",
+        "RelationToQueryTranslator::value (trait default): an arm `expr::Value::V(b) => ..` that prints the wrapper `b` itself (b.to_string(), format!(\"{}\", b)) does so only while "
+        "`impl Display for value::V` is the transparent `write!(f, \"{}\", self.0)`; Float goes through format_float_value",
+        floor=3,
+        necessary="a Display meant for people (escaped control characters, 5 significant digits, a fixed date layout) renders another literal: the rendered query filters on / returns another value",
+    )
+    fs = [f for f in src.find_fns(name="value", file="dialect_translation/mod.rs") if (f.self_ty or "").startswith("trait RelationToQueryTranslator")]
+    if len(fs) != 1:
+        rep.undecidable("E17", "RelationToQueryTranslator::value", "trait default `value` not found (%d)" % len(fs), "src/dialect_translation/mod.rs")
+        return
+    f = fs[0]
+    disp = transparent_displays(src)
+    ms = [m for m in find(f.body, "match")]
+    if not ms:
+        rep.undecidable("E17", "RelationToQueryTranslator::value", "no match over the value", f.where())
+        return
+    for a in ms[0]["arms"]:
+        p = a["pat"]
+        if p["k"] != "tuplestruct" or not p["elems"] or p["elems"][0]["k"] != "ident":
+            continue
+        v = p["path"]["segs"][-1]
+        b = p["elems"][0]["name"]
+        hits = wrapper_prints(a["body"], {b})
+        key = "RelationToQueryTranslator::value@" + v
+        tr = disp.get(v, (None, None))
+        rep.instance("E17", key, {"variant": v, "prints_wrapper": bool(hits), "display_transparent": tr[0]}, nontrivial=bool(hits) or v in ("Float", "Text", "Integer"))
+        if v == "Float" and not any(m["m"] == "format_float_value" for m in find(a["body"], "mcall")):
+            rep.violation("E17", key, "float literals do not go through format_float_value", "src/dialect_translation/mod.rs:%d" % a["l"])
+        if hits and tr[0] is not True:
+            rep.violation("E17", key, "the literal of a %s value is printed through `impl Display for value::%s`, which is not the transparent `write!(f, \"{}\", self.0)` (%s)" % (v, v, tr[1]), "src/dialect_translation/mod.rs:%d" % a["l"])
+
+
+def e18(rep, src):
+    """A column / relation name is ONE identifier component, whatever characters it contains."""
+    rep.rule(
+        "E18",
+        "expr/identifier.rs: `Identifier::from(&str)`, `Identifier::from(String)` and `Identifier::from_name` build the one-component identifier `[name]` (no splitting, trimming or case change): "
+        "the renderer names every CTE, column and alias with `translator.identifier(&(name.into()))[0]`",
+        floor=3,
+        necessary="a name containing the separator (a quoted \"Na.Me\") split into [Na, Me] is rendered as \"Na\": the next CTE selects a column that the previous one does not expose",
+    )
+    F = "expr/identifier.rs"
+    fn = [f for f in src.find_fns(name="from_name", file=F) if (f.self_ty or "") == "Identifier"]
+    sites = [("Identifier::from_name", fn[0] if len(fn) == 1 else None)]
+    for ty in ("&str", "String"):
+        fs = [f for f in src.find_fns(name="from", file=F) if (f.self_ty or "") == "Identifier" and (f.trait or "").replace(" ", "") == "From<%s>" % ty]
+        sites.append(("Identifier::from(%s)" % ty, fs[0] if len(fs) == 1 else None))
+    for key, f in sites:
+        if f is None:
+            rep.undecidable("E18", key, "definition not found in %s" % F, "src/" + F)
+            continue
+        pn = [p["pat"]["name"] for p in f.params if not p.get("self") and p["pat"]["k"] == "ident"]
+        st = f.body["stmts"]
+        e = st[0]["e"] if len(st) == 1 and st[0]["k"] == "expr" else None
+        t = show(e, 0).replace(" ", "") if e is not None else ""
+        ok = bool(pn) and t in ("Identifier::from_name(%s)" % pn[0], "Self::from_name(%s)" % pn[0], "Identifier(vec!(%s.into()))" % pn[0], "Identifier(vec!(%s))" % pn[0], "Identifier(vec!(%s.to_string()))" % pn[0],
+                                "Self(vec!(%s.into()))" % pn[0], "Identifier(vec!(String::from(%s)))" % pn[0])
+        rep.instance("E18", key, {"body": show(f.body, 80), "one_component": ok})
+        if not ok:
+            rep.violation("E18", key, "%s does not build the one-component identifier [name]: %s" % (key, show(f.body, 100)), f.where())
+
+
 def run(rep):
     rep.explanation = (
         "Table agreement and structural rules of the render / read round trip on the default (PostgreSQL) path. E3/E4 join the renderer table (variant -> translator method -> SQL spelling, read from the type-resolved MIR) "
@@ -756,5 +823,7 @@ def run(rep):
     e13(rep, src)
     e14(rep, src)
     e15(rep, src)
+    e17(rep, src)
+    e18(rep, src)
     rep.assume("sqlparser 0.46 parses NAME(args) into ast::Expr::Function with that name, except the keyword functions listed in KEYWORD_FUNCTIONS")
     rep.assume("operators are rendered through same-named ast::BinaryOperator / UnaryOperator variants (read: function_match_constructor!)")
